@@ -37,6 +37,8 @@ pub enum Dev {
     ApprovedOtherSourceAddress,
     ApprovedOtherDestination,
     AlreadyExecuted,
+    /// executed, then the same approval is submitted to the gateway again, then delivered again
+    ReapprovedAfterExecution,
     SourceChainNotHub,
     SourceAddressNotHub,
     OuterSendToHub,
@@ -54,13 +56,14 @@ pub enum Dev {
     Mutated(super::c10::Mutation),
 }
 
-const DEVS: [Dev; 17] = [
+const DEVS: [Dev; 18] = [
     Dev::NeverApproved,
     Dev::ApprovedOtherPayload,
     Dev::ApprovedOtherId,
     Dev::ApprovedOtherSourceAddress,
     Dev::ApprovedOtherDestination,
     Dev::AlreadyExecuted,
+    Dev::ReapprovedAfterExecution,
     Dev::SourceChainNotHub,
     Dev::SourceAddressNotHub,
     Dev::OuterSendToHub,
@@ -89,7 +92,7 @@ pub struct Case {
 fn dev() -> impl Strategy<Value = Dev> {
     prop_oneof![
         5 => Just(Dev::None),
-        17 => prop::sample::select(DEVS.to_vec()),
+        18 => prop::sample::select(DEVS.to_vec()),
         1 => (1u8..64).prop_map(Dev::Truncated),
         1 => (1u8..64).prop_map(Dev::Padded),
         8 => super::c10::mutation().prop_map(Dev::Mutated),
@@ -111,7 +114,7 @@ impl Property for C04 {
         "C04"
     }
     fn rule(&self) -> &'static str {
-        "proptest single cases: world = gateway + gas service + ITS (current-source token injected natively) with one ITS-deployed token, one registered canonical token with 500 in custody, an executable probe; a trusted-chain history of 0-6 set/remove operations over 3 chains; a conforming delivery (ReceiveFromHub wrapping a mint / a release / a transfer with data / a deploy with or without minter) and at most one deviation from the statement's list (never approved; approved with other payload / id / source address / destination; already executed; source chain not the hub; source address not the hub address; SendToHub wrapper; raw inner message; inner type 2; origin never trusted / removed again; unknown token; undecodable recipient or minter; amount 2^127; truncated / padded payload; any byte-level mutation - bit flip, dirty type word or padding, shifted offset, altered length - that leaves a non-canonical encoding). Oracle: effects (exact balance / custody / registry delta, gateway status executed, second delivery refused) iff no deviation; otherwise execute fails and the ledger snapshot is identical (approval still approved, not executed). non-trivial = a deviation is present, or the trust history contains a removal; distinct by Debug hash"
+        "proptest single cases: world = gateway + gas service + ITS (current-source token injected natively) with one ITS-deployed token, one registered canonical token with 500 in custody, an executable probe; a trusted-chain history of 0-6 set/remove operations over 3 chains; a conforming delivery (ReceiveFromHub wrapping a mint / a release / a transfer with data / a deploy with or without minter) and at most one deviation from the statement's list (never approved; approved with other payload / id / source address / destination; already executed; approval re-submitted after execution; source chain not the hub; source address not the hub address; SendToHub wrapper; raw inner message; inner type 2; origin never trusted / removed again; unknown token; undecodable recipient or minter; amount 2^127; truncated / padded payload; any byte-level mutation - bit flip, dirty type word or padding, shifted offset, altered length - that leaves a non-canonical encoding). Oracle: effects (exact balance / custody / registry delta, gateway status executed, second delivery refused) iff no deviation; otherwise execute fails and the ledger snapshot is identical (approval still approved, not executed). non-trivial = a deviation is present, or the trust history contains a removal; distinct by Debug hash"
     }
     fn cases(&self, tier: Tier) -> u64 {
         tier.pick(15000, 200000)
@@ -333,7 +336,7 @@ impl Property for C04 {
 
         let r = w.execute(source_chain, &mid, source_address, &payload);
         match dev {
-            Dev::None | Dev::AlreadyExecuted => {
+            Dev::None | Dev::AlreadyExecuted | Dev::ReapprovedAfterExecution => {
                 cx.count("must_succeed");
                 ensure_p!(r.is_ok(), "conforming delivery ({:?}) was rejected: {:?}", case.kind, r);
                 conforming_effects(cx)?;
@@ -344,6 +347,16 @@ impl Property for C04 {
                 cx.count("must_fail");
                 ensure_p!(r2.is_err(), "a delivered message was accepted a second time");
                 ensure_p!(snapshot(env) == snap1 && events_len(env) == ev1, "second delivery changed state");
+                if dev == Dev::ReapprovedAfterExecution {
+                    // anybody can re-submit the signed batch; the message must stay executed
+                    w.approve_for_its(source_chain, &mid, source_address, &payload)?;
+                    let snap2 = snapshot(env);
+                    let ev2 = events_len(env);
+                    let r3 = w.execute(source_chain, &mid, source_address, &payload);
+                    cx.count("must_fail");
+                    ensure_p!(r3.is_err(), "an executed message took effect again after its approval had been re-submitted");
+                    ensure_p!(snapshot(env) == snap2 && events_len(env) == ev2, "delivery after re-submitted approval changed state");
+                }
             }
             Dev::SourceAddressNotHub => {
                 if r.is_ok() {
